@@ -98,6 +98,16 @@ Theorem C02_ext_oer_bitmap_format : forall pres bm, oer_ext_bitmap pres = Some b
 Proof. exact oer_ext_bitmap_format. Qed.
 Print Assumptions C02_ext_oer_bitmap_format.
 
+(* -- X.696 16.2-16.3: the preamble = extension bit, then the presence bits of the OPTIONAL/DEFAULT root components, zero
+      padded to whole octets: the extension bit is the FIRST bit of the encoding for any number of such components -- *)
+Theorem C02_ext_oer_preamble_format : forall tg root adds rvs avs bs,
+  ext_oer (ESeq tg root adds) (EVSeq rvs avs) = Some bs ->
+  exists tail,
+    bytes_bits bs = (existsb is_present avs :: presence_bits root rvs)
+                    ++ repeat false (pad_len (S (length (presence_bits root rvs)))) ++ bytes_bits tail.
+Proof. exact ext_oer_preamble_format. Qed.
+Print Assumptions C02_ext_oer_preamble_format.
+
 (* -- X.691 11.2 / 11.9.3.5-8: the open type is the contents cut into fragments, each behind its length octet(s) -- *)
 Theorem C02_ext_open_type_is_spec : forall c, open_type c = open_type_spec c.
 Proof. exact open_type_is_spec. Qed.
